@@ -13,7 +13,7 @@ MAX_INLINE = 5
 class CallMixin:
     BUILTINS = {
         "len", "str", "int", "sorted", "isinstance", "type", "hasattr", "set", "list", "dict", "all", "any",
-        "min", "max", "repr", "open", "bool", "iter", "tuple", "super", "print", "getattr", "old", "implies",
+        "min", "max", "repr", "divmod", "open", "bool", "iter", "tuple", "super", "print", "getattr", "old", "implies",
     }
     LIB = {}
     LIB_ALIASES = {}
@@ -407,9 +407,11 @@ class CallMixin:
                 st.pc.extend(extra)
             st.heap, st.alloc, st.out, st.fs = s2.heap, s2.alloc, s2.out, s2.fs
             st.ghost = s2.ghost
+            st.weak = list(getattr(s2, "weak", ()))
             self._merged_value = val
             return
         conds = []
+        st.weak = sorted({w for s2, _ in results for w in getattr(s2, "weak", ())} | set(getattr(st, "weak", ())))
         for s2, _ in results:
             extra = s2.pc[base_len:]
             conds.append(z3.And(extra) if extra else z3.BoolVal(True))
